@@ -27,6 +27,7 @@ import CoreDhcp.Props.C12
 import CoreDhcp.Props.C13
 import CoreDhcp.Props.C15
 import CoreDhcp.Props.System
+import CoreDhcp.Props.GenAlloc4
 open CoreDhcp
 #print axioms C20_offset_exact
 #print axioms C20_offset_symm
@@ -174,3 +175,11 @@ open CoreDhcp
 #print axioms SYS_frame4
 #print axioms SYS_file_address4_cfg
 #print axioms SYS_C17_delivered4
+#print axioms GEN_a4_toIP_eq
+#print axioms GEN_a4_toIP_ofNat
+#print axioms GEN_a4_toIP_panic_iff
+#print axioms GEN_a4_toOffset_eq
+#print axioms GEN_a4_new_eq
+#print axioms GEN_a4_free_eq
+#print axioms GEN_a4_allocate_eq
+#print axioms GEN_a4_allocate_eq'
